@@ -311,4 +311,77 @@ theorem gramSchmidt_spec (sqrtO : K → K) (cols : List (DVec k K)) (hE : GsExac
 
 end GS
 
+/-! ### the product columns of `Yi` at the model level -/
+
+theorem find?_of_nodup_fst {β : Type} : ∀ (l : List (Int × β)) (w : Int × β) (a : Int), w.1 = a →
+    (l.map (·.1)).Nodup → w ∈ l → l.find? (fun x => x.1 == a) = some w := by
+  intro l
+  induction l with
+  | nil => intro w a _ _ hw; simp at hw
+  | cons x t ih =>
+    intro w a ha hnd hw
+    rw [List.map_cons, List.nodup_cons] at hnd
+    by_cases hx : x.1 = a
+    · have hxw : x = w := by
+        rcases List.mem_cons.1 hw with h | h
+        · exact h.symm
+        · have : w.1 ∈ t.map (·.1) := List.mem_map_of_mem h
+          rw [ha, ← hx] at this
+          exact absurd this hnd.1
+      have hb : (x.1 == a) = true := by simp [hx]
+      rw [List.find?_cons, hb, hxw]
+    · have hw' : w ∈ t := by
+        rcases List.mem_cons.1 hw with h | h
+        · exact absurd (h ▸ ha) hx
+        · exact h
+      have hb : (x.1 == a) = false := by simp [hx]
+      rw [List.find?_cons, hb]
+      exact ih w a ha hnd.2 hw'
+
+section Products
+open Gen.HlleIndex
+variable [Field K]
+
+theorem colOf_eq (U : Mat k d K) (a : Int) (h : 1 ≤ a ∧ a.toNat ≤ d) :
+    colOf U a = fun r => U r ⟨a.toNat - 1, by omega⟩ := by
+  simp only [colOf, dif_pos h]
+
+/-- for `1 + d ≤ c < hlleCols d` the `c`-th column of `Yi` (before orthogonalisation) is the entrywise product of the
+    tangent columns `a`, `b` for THE pair `(a, b)` = the `(c − 1 − d)`-th element of `allPairs d` -/
+theorem hlleYi0_product_col (hfix : ∀ ct d j, ctUpdate ct d j = ct + (d - j))
+    (hsrcA : ∀ p d j, srcA p d j = j + 1) (hsrcB : ∀ p d j, srcB p d j = j + p + 1)
+    (U : Mat k d K) (c : Nat) (h1 : 1 + d ≤ c) (h2 : c < hlleCols d) :
+    ∃ pr, (allPairs d)[c - 1 - d]? = some pr ∧
+      (hlleYi0 U)[c]? = some (DVec.ofFn fun r => colOf U pr.1 r * colOf U pr.2 r) := by
+  have hws := hlleWrites_eq_expected hfix hsrcA hsrcB d
+  have hcols := hlleWrites_cols hfix d
+  have hprs := hlleWrites_pairs hfix hsrcA hsrcB d
+  have hT : c - 1 - d < d * (d + 1) / 2 := by
+    rw [hlleCols_eq] at h2
+    omega
+  have hlenP : (allPairs d).length = d * (d + 1) / 2 := by
+    have := congrArg List.length hcols
+    rw [← hprs, List.length_map]
+    simpa using this
+  have hidx : c - 1 - d < (allPairs d).length := by omega
+  refine ⟨(allPairs d)[c - 1 - d], List.getElem?_eq_getElem hidx, ?_⟩
+  have hmem : (((c : Nat) : Int), (allPairs d)[c - 1 - d]) ∈ hlleWrites d := by
+    rw [hws, expectedWrites_def, List.mem_iff_getElem]
+    refine ⟨c - 1 - d, by simp [hlenP]; omega, ?_⟩
+    rw [List.getElem_zip, List.getElem_map, List.getElem_range]
+    congr 2
+    omega
+  have hnd : ((hlleWrites d).reverse.map (·.1)).Nodup := by
+    rw [List.map_reverse, List.nodup_reverse, hcols]
+    refine (List.nodup_range).map ?_
+    intro a b h
+    simp only [Nat.cast_inj] at h
+    omega
+  have hfind := find?_of_nodup_fst (hlleWrites d).reverse _ ((c : Nat) : Int) rfl hnd (List.mem_reverse.2 hmem)
+  have hc0 : c ≠ 0 := by omega
+  have hcd : ¬ c ≤ d := by omega
+  simp only [hlleYi0, List.getElem?_map, List.getElem?_range h2, Option.map_some, if_neg hc0, if_neg hcd, hfind]
+
+end Products
+
 end TapkeeVerif.LocallyLinear
